@@ -40,7 +40,7 @@ Local Notation keyed_fields := (Decoders.keyed_fields nt).
 
 Lemma keyed_slice nd key d e n :
   keyed_decode nd key d (TSlice e n) =
-  if netip e n then match d with DStr s => parse_ip s | _ => Err 40 end
+  if netip e n then match d with DStr s | DBytes s => parse_ip s | _ => Err 40 end
   else match d with DList l => omap VList (dec_list (fun x => keyed_decode nd key x e) l) | _ => Err 40 end.
 Proof.
   simpl. destruct (netip e n); [reflexivity|].
